@@ -655,6 +655,27 @@ def expected_targets(proj, cfg, rname):
     return {n for n, _ in deps} - bad
 
 
+def definitely_ignored(proj, cfg):
+    """ground truth: routines every caller of which lists them (by name, module, or module#name) in its effective
+    `ignore` list (routine-level list, else the default one) and that are not seeds.  Whatever the order in which
+    `_add_children` stamps `is_ignored` (last writer wins), such a routine ends up ignored."""
+    home = home_of(proj)
+    ents = dict(cfg['routines'])
+    seeds = {s.split('#')[-1] for s in cfg['seeds']}
+    callers = {}
+    for r in proj['routines']:
+        for c in r['calls']:
+            callers.setdefault(c, []).append(r['name'])
+    out = set()
+    for name, cs in callers.items():
+        if name in seeds:
+            continue
+        keys = {name} | ({home[name], f'{home[name]}#{name}'} if home.get(name) else {f'#{name}'})
+        if all(keys & set(ents.get(c, {}).get('ignore', cfg['dignore'])) for c in cs):
+            out.add(name)
+    return out
+
+
 def file_has_topo(nodes, edges):
     g = nx.DiGraph()
     g.add_nodes_from(nodes)
@@ -776,6 +797,25 @@ def check_property(D):
                     any(V.pool[p]['ign'] for p in par.get(h, [])) and not man['procign'] for h in hidden) else None
                 fails.append(Failure(f"file {c['item']}: graph items {hidden} missing from the items passed to the "
                                      f"transformation (enclosing definition item is ignored)", cls))
+        # ignored items are not handed to the transformation unless it processes ignored items: neither in `items`
+        # nor as the item of a per-item recursion call (ground truth: the config's ignore lists; plus Loki's own flag)
+        if not man['procign']:
+            gt = definitely_ignored(D['proj'], D['cfg'])
+
+            def is_ign(name):
+                it = V.pool.get(name)
+                return (it is not None and it['kind'] == 'proc' and name.split('#')[-1] in gt) or \
+                    (it is not None and it['ign'])
+            for c in top:
+                bad = sorted(n for n in (c['items'] or []) if is_ign(n))
+                if bad:
+                    fails.append(Failure(f"file {c['item']}: ignored items {bad} are passed in `items` although "
+                                         f"process_ignored_items is not set"))
+                    break
+            bad = sorted({c['item'] for c in calls if not c['top'] and is_ign(c['item'])})
+            if bad:
+                fails.append(Failure(f"file-graph recursion: transformation applied to ignored items {bad} although "
+                                     f"process_ignored_items is not set"))
         # recursion from files: every selected procedure of a processed file gets one call, with its own attributes
         if man['recproc']:
             for it in selected:
@@ -808,6 +848,35 @@ def check_property(D):
 # ------------------------------------------------------------------ the property object
 
 FILTERS = [['proc'], ['proc'], [], ['proc', 'module'], ['proc', 'module', 'typedef'], ['module', 'typedef'], ['typedef']]
+
+
+def force_ignored_sibling(rng, proj, cfg):
+    """make some called routine that shares its file with another routine ignored by *all* its callers;
+    returns its name or None"""
+    fidx = {}
+    for f, _kind, _name, rs in proj['units']:
+        for i in rs:
+            fidx[f'r{i}'] = f
+    seeds = {s.split('#')[-1] for s in cfg['seeds']}
+    called = {c for r in proj['routines'] for c in r['calls']}
+    cands = [n for n in sorted(called) if n not in seeds and
+             any(m != n and fidx[m] == fidx[n] for m in fidx)]
+    if not cands:
+        return None
+    victim = rng.choice(cands)
+    ents = dict(cfg['routines'])
+    for r in proj['routines']:
+        if victim in r['calls']:
+            ent = ents.setdefault(r['name'], {})
+            ent['ignore'] = sorted(set(ent.get('ignore', [])) | {victim})
+            for key in ('block', 'disable'):
+                if victim in ent.get(key, []):
+                    ent[key] = [x for x in ent[key] if x != victim]
+                    if not ent[key]:
+                        del ent[key]
+    cfg['routines'] = [[k, v] for k, v in ents.items()]
+    cfg['ddisable'] = [x for x in cfg['ddisable'] if x != victim]
+    return victim
 
 
 def gen_manifest(rng):
@@ -876,9 +945,16 @@ class C22(Prop):
         for _ in range(nproj):
             proj = gen_project(rng)
             cfg = gen_config(rng, proj)
-            for _ in range(per):
+            victim = force_ignored_sibling(rng, proj, cfg) if rng.random() < 0.4 else None
+            for k in range(per):
                 man = gen_manifest(rng)
                 plan = rng.random() < 0.6
+                if victim is not None and k < 2:
+                    # an ignored routine shares its file with a processed one: file graph with recursion, with (k=1) and
+                    # without (k=0) process_ignored_items, either direction, either strategy
+                    man.update(filegraph=True, recproc=True, procign=(k == 1))
+                    if 'proc' not in man['filter'] and man['filter']:
+                        man['filter'] = ['proc'] + man['filter']
                 mode = None
                 entry = rng.choice(['trafo', 'trafo', 'pipeline'])
                 if rng.random() < 0.25:
